@@ -57,6 +57,7 @@ add("cv_rdsig_g", ["C01", "C04"], "t", progs=[P("L", cvw(), "U"), P("G1", "R", "
 add("cv_gen", ["C04", "C05"], "q", progs=[P("L", cvl(v=1, dl=1, x=9), "U"), P("L", "set11", "S", "U")], NV=1, MaxNow=1)
 add("cv_gen2_g", ["C04"], "t", progs=[P("L", cvl(v=1, dl=1, x=9), "U"), P("G1", "L", cvl(v=1, dl=1, x=9), "U"), P("G2", "L", "set11", "U", "S")], NV=1, MaxNow=1)
 add("mw_to_g", ["C05"], "q", progs=[P("L", mwt(1), "U"), P("G1", "L", mwt(1, dl=1), "U"), P("G2", "L", "set11", "U")], NV=1, conds=C1, MaxNow=1)
+add("mw_eq3_g", ["C06"], "t", progs=[P("L", mwt(1), "U"), P("G1", "L", mwt(3), "U"), P("G2", "L", mwt(4), "U"), P("G3", "L", "set21", "U")], NV=2, conds=CS)
 add("mw_3c_g", ["C06"], "t", progs=[P("L", mwt(1), "U"), P("G1", "L", mwt(2), "U"), P("G2", "L", mwt(3), "U"), P("G3", "L", "set21", "U", "L", "set11", "U")], NV=2, conds=CS)
 add("mw_rdall_g", ["C06"], "q", progs=[P("L", mwt(1), "U"), P("G1", "R", "RU", "R", "RU"), P("G1", "L", "set11", "U")], NV=1, conds=C1)
 # ---- nsync_wait_n on a cv (C04 C11 C13) ----
@@ -111,7 +112,11 @@ RANDOM = {
             dict(progs=[P("L", cvl(v=1, dl=1, x=9), "U"), P("L", cvl(v=1, dl=2, x=9), "U"), P("L", "set11", "U", "S")], NV=1, MaxNow=2)],
     "C05": [dict(progs=[P("L", cvl(v=1, dl=1, cn=True), "U"), P("R", mwt(1, dl=2, cn=True), "RU"), P("N"), P("L", "set11", "S", "U")], NV=1, conds=C1),
             dict(progs=[P("L", mwt(1), "U"), P("L", mwt(1, dl=1), "U"), P("L", "set11", "U"), P("L", "U")], NV=1, conds=C1)],
-    "C06": [dict(progs=[P("L", mwt(1), "U"), P("L", mwt(2, dl=1), "U"), P("R", mwt(3), "RU"), P("L", "set11", "U", "L", "set21", "U")], NV=2, conds=CS),
+    "C06": [dict(progs=[P("L", mwt(1), "U"), P("G1", "R", "RU"), P("G1", "L", "U", "L", "set11", "U")], NV=1, conds=C1),
+            dict(progs=[P("L", mwt(1), "U"), P("G1", "R", "RU"), P("G1", "R", "RU", "L", "set11", "U"), P("G1", "L", "U")], NV=1, conds=C1),
+            dict(progs=[P("L", mwt(1), "U"), P("G1", "L", mwt(3), "U"), P("G2", "L", mwt(4), "U"), P("G3", "L", "set21", "U")], NV=2, conds=CS),
+            dict(progs=[P("L", mwt(3), "U"), P("G1", "L", mwt(1), "U"), P("G2", "R", mwt(4), "RU"), P("G3", "L", "set11", "U")], NV=2, conds=CS),
+            dict(progs=[P("L", mwt(1), "U"), P("L", mwt(2, dl=1), "U"), P("R", mwt(3), "RU"), P("L", "set11", "U", "L", "set21", "U")], NV=2, conds=CS),
             dict(progs=[P("L", mwt(4), "U"), P("R", mwt(1), "RU"), P("L", cvl(v=1), "U"), P("L", "UW", "L", "set11", "B", "U")], NV=1, conds=CS)],
     "C13": [dict(progs=[P("L", wnl(v=1, dl=1), "U"), P("L", wnl(v=1, dl=2), "U"), P("L", "set11", "U", "B"), P("L", "U", "S")], NV=1),
             dict(progs=[P("L", op("decref"), "U", op("freeiflast"))] * 4, NV=1)],
